@@ -13,6 +13,23 @@ Inductive val := VNone | VInt (z : Z) | VBool (b : bool) | VStr (s : sval) | VSe
 
 Definition is_none (v : val) : bool := match v with VNone => true | _ => false end.
 
+(* Python's == on this universe (list membership `a in used_args`): True == 1, False == 0, strings by content *)
+Definition num_of (v : val) : option Z :=
+  match v with VInt z => Some z | VBool true => Some 1 | VBool false => Some 0 | _ => None end.
+Definition val_eq (a b : val) : bool :=
+  match num_of a, num_of b with
+  | Some x, Some y => x =? y
+  | None, None =>
+      match a, b with
+      | VNone, VNone => true
+      | VSelf, VSelf => true
+      | VStr (SNum x p), VStr (SNum y q) => (x =? y) && Bool.eqb p q
+      | VStr (SWord x), VStr (SWord y) => x =? y
+      | _, _ => false
+      end
+  | _, _ => false
+  end.
+
 Definition reject {A} : outcome A := Raise ValidatorExceptionC.
 Definition conv_err {A} : outcome A := Raise ConversionErrorC.
 
@@ -125,8 +142,15 @@ Definition enc_journal (j : list (jentry val)) : list Z :=
 Definition enc_final (f : final val) : list Z :=
   match f with
   | FBody b => 0 :: enc_dict b
+  | FBodyStar b star => 3 :: enc_dict b ++ zn (List.length star) :: flat_map enc_val star
   | FRaise e pn => 1 :: enc_pn pn :: enc_exn e
   | FNoCall => [2]
+  end.
+Definition enc_demanded_star (d : demanded_star val) : list Z :=
+  match d with
+  | DSRaise rs => 1 :: zn (List.length rs) :: flat_map (fun r => enc_pn (snd r) :: enc_exn (fst r)) rs
+  | DSPythonRejects => [2]
+  | DSBody b star => 3 :: enc_dict b ++ zn (List.length star) :: flat_map enc_val star
   end.
 Definition enc_demanded (d : demanded val) : list Z :=
   match d with
@@ -155,18 +179,20 @@ Definition call_shape_ok (sg : signature val) (c : call val) : bool :=
   && nodup_names (map fst (combine (positional_names val sg) (c_args c) ++ c_kwargs c)).
 
 Definition domain (sg : signature val) (dc : deco val) (env : wenv) (c : call val) : Z :=
-  if negb (decl_wellformed val sg dc && call_shape_ok sg c) || flask_clause dc env then 0
+  if s_varpos sg then (if spec_star_domain val sg dc c && negb (flask_clause dc env) then 3 else 0)    (* 3: *args, principal use *)
+  else if negb (decl_wellformed val sg dc && call_shape_ok sg c) || flask_clause dc env then 0
   else if names_fit val sg dc c then 2
   else match demanded_raises val is_none sg dc c with _ :: _ => 2 | [] => 1 end.
 
-Definition eval_case (ps : list (param val)) (sps : list (sigparam val)) (varkw : bool)
+Definition eval_case (ps : list (param val)) (sps : list (sigparam val)) (varkw varpos : bool)
            (mode : Z) (strict ignore is_async : bool) (rq : option (bool * list nat))
            (args : list val) (kwargs : list (nat * val)) : list Z :=
-  let sg := {| s_params := sps; s_varkw := varkw |} in
+  let sg := {| s_params := sps; s_varkw := varkw; s_varpos := varpos |} in
   let dc := {| d_params := ps; d_mode := mode_of mode; d_strict := strict; d_ignore_input := ignore |} in
   let env := mkenv rq in
   let c := {| c_args := args; c_kwargs := kwargs |} in
-  let r := run val is_none Gen.Validate.cfg Gen.Validate.is_required_rule sg env dc is_async c in
+  let r := run val is_none val_eq Gen.Validate.cfg Gen.Validate.is_required_rule sg env dc is_async c in
   enc_journal (fst r) ++ enc_final (snd r) ++ [-1]
-  ++ [domain sg dc env c] ++ enc_demanded (spec_outcome val is_none sg dc c)
+  ++ [domain sg dc env c]
+  ++ (if varpos then enc_demanded_star (spec_star_outcome val is_none sg dc c) else enc_demanded (spec_outcome val is_none sg dc c))
   ++ enc_journal (concat (spec_journals val is_none sg dc c)).
